@@ -14,22 +14,43 @@ package c09
 // In is the generated input of one case. Object lists are run-length encoded as
 // [count, pad] pairs: `count` objects whose padding annotation is `pad` bytes long.
 type In struct {
-	Kind    string   `json:"kind"`     // "sync" (one external plugin) | "pre" (pre-installed plugins)
-	Pods    [][2]int `json:"pods"`     // runs of [count, pad]
-	Ctrs    [][2]int `json:"ctrs"`     // runs of [count, pad]
-	Handler string   `json:"handler"`  // "record" | "none" | "error"
-	Updates int      `json:"updates"`  // container updates the handler returns (first k containers)
-	Slack   int      `json:"slack"`    // spare capacity of the slices the runtime's SyncFn passes (0 = cap == len)
-	Limit   int      `json:"limit"`    // ttrpc's maximum message length
-	MinObjs int      `json:"min_objs"` // documented minimum objects per message of the sender
-	Plugins []PluginIn `json:"plugins"` // kind "pre": the pre-installed plugins (launched by Adaptation.Start)
-	Stream  string   `json:"stream"`   // which generator stream produced the case
-	Note    string   `json:"note"`
+	Kind    string     `json:"kind"`     // "sync" (one external plugin) | "pre" (pre-installed plugins) | "restart" (one stub, two sessions; pods/ctrs are the SECOND session's state)
+	First   *FirstIn   `json:"first"`    // kind "restart": the first, abandoned session
+	Pods    [][2]int   `json:"pods"`     // runs of [count, pad]
+	Ctrs    [][2]int   `json:"ctrs"`     // runs of [count, pad]
+	Handler string     `json:"handler"`  // "record" | "none" | "error"
+	Updates int        `json:"updates"`  // container updates the handler returns (first k containers)
+	Slack   int        `json:"slack"`    // spare capacity of the slices the runtime's SyncFn passes (0 = cap == len)
+	Limit   int        `json:"limit"`    // ttrpc's maximum message length
+	MinObjs int        `json:"min_objs"` // documented minimum objects per message of the sender
+	Plugins []PluginIn `json:"plugins"`  // kind "pre": the pre-installed plugins (launched by Adaptation.Start)
+	Stream  string     `json:"stream"`   // which generator stream produced the case
+	Note    string     `json:"note"`
+}
+
+// FirstIn describes the first session of a "restart" case: the state the runtime holds then,
+// and how the session ends. CutAfter = 0: on its own (the state is chosen so that the split
+// synchronization fails after some chunks got through); CutAfter = k > 0: the k+1-th
+// SynchronizeRequest is answered with an RPC error at the plugin end (as a lost connection
+// would), after k chunks were collected by the stub.
+type FirstIn struct {
+	Pods     [][2]int `json:"pods"`
+	Ctrs     [][2]int `json:"ctrs"`
+	CutAfter int      `json:"cut_after"`
+}
+
+// FirstObs is what the first session of a "restart" case looked like.
+type FirstObs struct {
+	Outcome string     `json:"outcome"` // "failed" | "synced" | "timeout"
+	ErrKind string     `json:"err_kind"`
+	Plan    []ChunkObs `json:"plan"`   // chunks the stub collected/handled in the first session
+	Calls   []CallObs  `json:"calls"`  // handler calls during the first session
+	Closed  bool       `json:"closed"` // the stub's onClose fired before the restart
 }
 
 // PluginIn describes one pre-installed plugin of a "pre" case.
 type PluginIn struct {
-	Idx     string `json:"idx"`     // two digits
+	Idx     string `json:"idx"` // two digits
 	Name    string `json:"name"`
 	Handler string `json:"handler"` // "record" | "none" | "error"
 	Updates int    `json:"updates"`
@@ -79,22 +100,23 @@ type CallObs struct {
 
 // Obs is the canonical observation of the real code.
 type Obs struct {
-	Outcome   string     `json:"outcome"`  // "synced" | "failed" | "crashed" | "timeout" | "harness"
-	Panic     string     `json:"panic"`    // first panic line (crashed)
-	ErrKind   string     `json:"err_kind"` // failed: "too-large" | "no-split" | "deadline" | "handler" | "runaway" | "closed" | "other"
-	PodSizes  [][2]int   `json:"pod_sizes"` // runs of [count, encoded size]
-	CtrSizes  [][2]int   `json:"ctr_sizes"`
-	Attempts  []Attempt  `json:"attempts"`
-	Plan      []ChunkObs `json:"plan"`
-	Calls     []CallObs  `json:"calls"`
-	Returned  []int      `json:"returned"`        // container indices the handler's updates name
-	RtUpdates []int      `json:"runtime_updates"` // container indices of the updates the runtime's SyncFn received
-	Activated bool       `json:"activated"`       // the plugin received a later RunPodSandbox event
-	Alive     bool       `json:"alive"`           // the runtime process survived the case
-	Runaway   bool       `json:"runaway"`         // the harness cut the exchange off: more chunks than objects
-	SyncCalls int        `json:"sync_calls"`      // times the runtime's SyncFn was invoked
-	Plugins   []PluginObs `json:"plugins"`        // kind "pre"
-	Detail    string     `json:"detail"`          // free text for humans (never compared)
+	Outcome   string      `json:"outcome"`   // "synced" | "failed" | "crashed" | "timeout" | "harness"
+	Panic     string      `json:"panic"`     // first panic line (crashed)
+	ErrKind   string      `json:"err_kind"`  // failed: "too-large" | "no-split" | "deadline" | "handler" | "runaway" | "closed" | "other"
+	PodSizes  [][2]int    `json:"pod_sizes"` // runs of [count, encoded size]
+	CtrSizes  [][2]int    `json:"ctr_sizes"`
+	Attempts  []Attempt   `json:"attempts"`
+	Plan      []ChunkObs  `json:"plan"`
+	Calls     []CallObs   `json:"calls"`
+	Returned  []int       `json:"returned"`        // container indices the handler's updates name
+	RtUpdates []int       `json:"runtime_updates"` // container indices of the updates the runtime's SyncFn received
+	Activated bool        `json:"activated"`       // the plugin received a later RunPodSandbox event
+	Alive     bool        `json:"alive"`           // the runtime process survived the case
+	Runaway   bool        `json:"runaway"`         // the harness cut the exchange off: more chunks than objects
+	SyncCalls int         `json:"sync_calls"`      // times the runtime's SyncFn was invoked
+	Plugins   []PluginObs `json:"plugins"`         // kind "pre"
+	First     *FirstObs   `json:"first"`           // kind "restart"
+	Detail    string      `json:"detail"`          // free text for humans (never compared)
 }
 
 type workerReq struct {
